@@ -16,6 +16,7 @@ ID = "C13"
 BOUNDS = {
     "quick": "3 schemas x every root field x every variable declaration/value combination x every operation within 1 further deviation of the minimal one INCLUDING the ill-typed alternatives (wrong literals, unknown fields/arguments, missing required arguments, variables declared with the nullable / non-null twin of the position's type, variables inside list and input-object literals, impossible type conditions, leaf/composite selection slips), filtered by the implementation's own validate() == []; x provided/absent/null/defaulted variables accepted by get_variable_values; x conforming data (all present, all-nullable-null) and every single fault on a selected field",
     "thorough": "2 further deviations",
+    "multiop": "two-operation documents: 11 declarations x 14 usages (direct, in list / object literals, in shared fragments) of the same variable name, every ordered pair",
 }
 RULE = (
     "exhaustive within bounds: the enumerated space contains a near miss for each validation rule, so a rule made too permissive lets an "
@@ -38,15 +39,92 @@ def shards(tier):
             for a in range(2):
                 for b in range(3):
                     out.append((s, op, k, a, b))
+    for i in range(len(MO_TYPES)):
+        out.append(("multiop", i))
     return out
+
+
+# ---- documents with two operations that declare the same variable name differently (and share fragments)
+MO_TYPES = ["Int", "Int!", "[Int]", "[Int!]!", "String", "Boolean", "Boolean!", "In", "E", "Int = 1", "[Int!]"]
+MO_USES = ["echo(i: $v)", "req(r: $v, rl: [1])", "req(r: 1, rl: $v)", "echo(l: $v)", "echo(b: $v)", "plain @skip(if: $v)", "echo(inp: $v)",
+           "echo(e: $v)", "echo(l: [$v])", "echo(inp: {p: $v})", "...F", "...G", "sub { ...F }", "echo(x: $v)"]
+MO_FRAGS = "fragment F on Query { echo(i: $v) } fragment G on Query { req(r: $v, rl: [$v]) }"
+
+
+def mo_doc(ops):
+    text = " ".join(f"query {n}($v: {t}) {{ {u} }}" for n, t, u in ops)
+    used = " ".join(u for _n, _t, u in ops)
+    frags = []
+    if "...F" in used:
+        frags.append(MO_FRAGS.split(" fragment G")[0])
+    if "...G" in used:
+        frags.append("fragment G" + MO_FRAGS.split("fragment G")[1])
+    return text + (" " + " ".join(frags) if frags else "")
+
+
+def run_multiop(i, tier, res):
+    """validate() accepts the two-operation document => it accepts each operation on its own (with the fragments it uses), and executing
+    either operation of the combined document behaves like executing it alone."""
+    from graphql import execute_sync, parse, validate
+
+    schema = c02.schema_for("S2")
+    t1 = MO_TYPES[i]
+    roots, _ = gdata.build(schema)
+    for u1 in MO_USES:
+        for t2 in MO_TYPES:
+            for u2 in MO_USES:
+                for order in (0, 1):
+                    ops = [("A", t1, u1), ("B", t2, u2)]
+                    if order:
+                        ops.reverse()
+                    text = mo_doc(ops)
+                    doc = parse(text)
+                    res.executions += 1
+                    res.evaluations += 1
+                    res.transitions += 1
+                    try:
+                        errs = validate(schema, doc)
+                    except Exception as e:  # noqa: BLE001
+                        res.violation("validate_raises", f"{text!r}: {type(e).__name__}: {e}", {"multiop": text})
+                        return
+                    if errs:
+                        res.count("rejected_by_validation")
+                        continue
+                    res.count("accepted_by_validation")
+                    for op in ops:
+                        alone = mo_doc([op])
+                        e1 = validate(schema, parse(alone))
+                        res.evaluations += 1
+                        if e1:
+                            res.violation("accepted_only_in_company", f"S2: {text!r} is accepted, but its operation {op[0]} alone is rejected: "
+                                          f"{alone!r}: {[e.message for e in e1]}", {"multiop": text})
+                            return
+                        for values in ({}, {"v": None}):
+                            a = execute_sync(schema, doc, roots["query"], variable_values=values, operation_name=op[0], field_resolver=gdata.harness_resolver())
+                            b = execute_sync(schema, parse(alone), roots["query"], variable_values=values, field_resolver=gdata.harness_resolver())
+                            res.evaluations += 1
+                            def essence(r):
+                                # positions in the text differ between the two documents
+                                return r.data, [(e.message, e.path) for e in r.errors or []]
+
+                            if essence(a) != essence(b):
+                                res.violation("operation_behaves_differently_in_company", f"S2: {text!r} operation {op[0]} vars={values}: {a.formatted} alone: {b.formatted}", {"multiop": text})
+                                return
+                    res.outcome((text,))
+        res.states += 1
+    if i == 1:
+        res.sample({"document": mo_doc([("A", "Int!", MO_USES[1]), ("B", "Int", MO_USES[0])]), "checked": "accepted => each operation alone accepted and executing it gives the same response"})
 
 
 def run_shard(shard, tier):
     from graphql import GraphQLSyntaxError, parse, validate
     from graphql.execution.values import get_variable_values
 
-    sname, op, k, a, b = shard
     res = Result()
+    if shard[0] == "multiop":
+        run_multiop(shard[1], tier, res)
+        return res
+    sname, op, k, a, b = shard
     schema = c02.schema_for(sname)
     faults_all = gdata.fault_menu(schema)
     cur = {}
@@ -151,6 +229,10 @@ def replay(payload):
     def viol(sig, label, summary, fault=None, vnull=False):
         out.append({"signature": sig, "summary": f"{label}: {summary}"})
 
+    if payload.get("multiop"):
+        for i in range(len(MO_TYPES)):
+            run_multiop(i, "quick", res)
+        return [{"signature": v["signature"], "summary": v["summary"]} for v in res.violations if payload["multiop"] in v["summary"]]
     schema = c02.schema_for(payload["schema"])
     doc = parse(payload["doc"])
     fault = tuple(payload["fault"]) if payload.get("fault") else None
